@@ -20,7 +20,7 @@ RULE = ("E1: every cell of incoming (type x code in {0.00, 0.01, 0.31, 2.05, 4.0
         "{pending, unknown} x source {peer, other port} x local address {unicast, ff02::fd, v4-mapped 224.0.1.187} x handler "
         "duration {0, D-e, D+e, 0.5 s} x No-Response {absent,0,2,8,16,26}) where the statement defines the reaction, all ordered "
         "pairs of a sub-table, cells behind the node's own unacknowledged CON (answered on time, separate response released by its ACK), the peer's message carrying the node's own "
-        "just-acknowledged message ID, 1-3 exchanges with the peer's other port while a CON to its first port is open, and outgoing multicast cells x tuning reliability preference; states = distinct (cell, reply multiset) pairs")
+        "just-acknowledged message ID, 1-3 exchanges with the peer's other port while a CON to its first port is open, the node's own request going out on the token of the peer's request still in its handler, and outgoing multicast cells x tuning reliability preference; states = distinct (cell, reply multiset) pairs")
 ASSUMPTIONS = [
     "CON with reserved-class/signalling code: 'ignored' or RST both accepted (statement vs RFC 7252 4.2)",
     "ACK carrying a response for a pending token but a foreign message ID: delivery is a don't-care; nothing may be sent",
@@ -339,6 +339,51 @@ def run_other_port(res, n_requests, first_open):
         res.transitions += n_requests
         res.outcomes.add(core.digest(("other-port", got)))
         res.signatures.add(core.digest(("other-port", n_requests, first_open)))
+    finally:
+        w.dispose()
+
+
+def run_role_reversal(res, dur, own_type):
+    """The peer's confirmable request is still with its handler when the node sends a request of its own to that peer - and the
+    token the node hands out happens to be the one the peer used (tokens of the two directions are separate spaces): the node's
+    request is a request (own message ID, CON or NON as asked), and the peer's request is acknowledged by the table as always."""
+    w, node, req, tok, reqmid, calls = build()
+    try:
+        t0 = w.loop.time()
+        # the token the node is going to hand out next
+        nxt = ((node.tman._token + 1) % (2 ** 64)).to_bytes(8, "big").lstrip(b"\0")
+        mid = 0x5AA0
+        n0 = len(w.sent)
+        w.inject(PEER, NODE, rc.encode((rc.CON, 1, mid, nxt, [(11, ("h" + dur).encode())], b"")), local_ip=LOCALS["uni"])
+        m = Message(code=GET, uri_path=["own"], _mtype=own_type)
+        m.remote = node.remote(PEER)
+        own = node.ctx.request(m, handle_blockwise=False)
+        w.loop.settle()
+        w.loop.advance_to(t0 + 1.0)
+        case = {"role_reversal": [dur, int(own_type)]}
+        res.evaluations += 1
+        res.traces += 1
+        out = [rc.decode(d.data, check_formats=False) for d in w.sent[n0:] if d.src == NODE and d.dst == PEER]
+        own_sent = [x for x in out if 1 <= x[1] < 32 and rc.opt(x[4], 11) == b"own"]
+        ok_own = len({x[2] for x in own_sent}) == 1 and all(x[0] == (rc.CON if own_type == CON else rc.NON) and x[2] != mid for x in own_sent)
+        got = classify([(d, rc.decode(d.data, check_formats=False)) for d in w.sent[n0:] if d.src == NODE and d.dst == PEER
+                        and not (1 <= d.data[1] < 32)], [mid], [nxt], t0, with_time=True)
+        want = norm_expected(expected((rc.CON, 1, False, "peer", "uni", dur, None), mid, nxt))
+        if own_type == CON:
+            # the node's own confirmable request is never acknowledged in this run: a separate confirmable response rightly waits
+            # behind it (NSTART, C14) - only the acknowledgement of the peer's request is judged
+            want = [e for e in want if e[0] != "CON"]
+            got = [e for e in got if e[0] != "CON"]
+        if not ok_own or got != want:
+            res.violate(Violation("reaction-with-own-request-on-same-token", {"own request": "one %s request under an own message ID" % ("CON" if own_type == CON else "NON"), "replies": want},
+                                  {"own request": [rc.describe(x) for x in own_sent], "replies": got}, "messagemanager.py:send_message", case, trace=w.trace[-20:],
+                                  key="role-reversal/" + ("own" if not ok_own else "replies")))
+        for msg, e in w.loop_exceptions():
+            res.violate(Violation("loop-exception", "none", core.exc_desc(e) if e else msg, core.site_of(e) if e else "loop", case, key="loop"))
+        res.states.add(core.digest(("rr", dur, int(own_type), got)))
+        res.transitions += 2
+        res.outcomes.add(core.digest(("rr", got)))
+        res.signatures.add(core.digest(("rr", dur, int(own_type))))
     finally:
         w.dispose()
 
@@ -741,6 +786,9 @@ def job(arg):
             for first_open in (True, False):
                 run_other_port(res, n, first_open)
         for dur in DUR:
+            for own_type in (CON, NON):
+                run_role_reversal(res, dur, own_type)
+        for dur in DUR:
             for gap in (0.0, 0.01, 0.05, 0.09, 0.11, 0.3, 0.6):
                 for nr in (None, 2):
                     run_duplicate_in_window(res, dur, gap, nr)
@@ -824,6 +872,8 @@ def replay(case, scenario, seed):
         run_duplicate_in_window(res, *case["duplicate_in_window"])
     elif "multicast_given_up" in case:
         run_multicast_given_up(res, *case["multicast_given_up"])
+    elif "role_reversal" in case:
+        run_role_reversal(res, case["role_reversal"][0], CON if case["role_reversal"][1] == int(CON) else NON)
     elif "other_port" in case:
         run_other_port(res, *case["other_port"])
     elif "behind_release" in case:
